@@ -386,7 +386,69 @@ func (authresState) CheckBody(ctx context.Context, h textproto.Header, b buffer.
 }
 func (authresState) Close() error { return nil }
 
+// RcptMod ("modify.verif_mod") is a recipient modifier of a destination block that leaves
+// every address as it is and fails (451) for the addresses listed in fail_rcpt. Every
+// RewriteRcpt call is recorded as a ModCall event.
+type RcptMod struct {
+	modName, instName string
+	id                string
+	ctl               *CheckCtl
+	fail              []string
+}
+
+func NewRcptMod(modName, instName string, _, inlineArgs []string) (module.Module, error) {
+	if len(inlineArgs) != 0 {
+		return nil, fmt.Errorf("%s: inline arguments are not used", modName)
+	}
+	return &RcptMod{modName: modName, instName: instName}, nil
+}
+
+func (m *RcptMod) Init(cfg *config.Map) error {
+	var key string
+	cfg.String("id", false, true, "", &m.id)
+	cfg.String("ctl", false, true, "", &key)
+	cfg.StringList("fail_rcpt", false, false, nil, &m.fail)
+	if _, err := cfg.Process(); err != nil {
+		return err
+	}
+	ctl, err := lookupCtl(key)
+	if err != nil {
+		return err
+	}
+	m.ctl = ctl
+	return nil
+}
+
+func (m *RcptMod) Name() string         { return m.modName }
+func (m *RcptMod) InstanceName() string { return m.instName }
+func (m *RcptMod) ModStateForMsg(ctx context.Context, msgMeta *module.MsgMetadata) (module.ModifierState, error) {
+	return rcptModState{m}, nil
+}
+
+type rcptModState struct{ m *RcptMod }
+
+func (s rcptModState) RewriteSender(ctx context.Context, from string) (string, error) { return from, nil }
+func (s rcptModState) RewriteRcpt(ctx context.Context, to string) ([]string, error) {
+	res := "ok"
+	for _, f := range s.m.fail {
+		if f == to {
+			res = "err"
+		}
+	}
+	s.m.ctl.Tr.Emit("ModCall", vtrace.Ev{"blk": s.m.id, "r": s.m.ctl.rid(to), "res": res})
+	if res != "ok" {
+		return nil, &exterrors.SMTPError{Code: 451, EnhancedCode: exterrors.EnhancedCode{4, 3, 0},
+			Message: "scripted modifier failure", ModifierName: "verif_mod"}
+	}
+	return []string{to}, nil
+}
+func (s rcptModState) RewriteBody(ctx context.Context, h *textproto.Header, body buffer.Buffer) error {
+	return nil
+}
+func (s rcptModState) Close() error { return nil }
+
 func init() {
+	module.Register("modify.verif_mod", NewRcptMod)
 	module.Register("check.verif_authres", func(modName, instName string, _, _ []string) (module.Module, error) {
 		return &AuthresCheck{modName: modName, instName: instName}, nil
 	})
